@@ -437,4 +437,124 @@ def WT (C : Codec) (S : Schema) : Nat → Nat → List Val → Prop
   | 0 => fun _ _ => False
   | f + 1 => fun c fs => S.okCls c = true ∧ WTprops C S (WT C S f) (S.props c) fs
 
+/-! ## what the API user reads (`__get__`) -/
+
+/-- `_XmlStructureBaseProperty.__get__`: the stored value; the implied value of the member only when nothing is stored -/
+def publicRead (implied : Option String) : Val → Val
+  | .none => match implied with
+    | some s => .atom s
+    | none => .none
+  | v => v
+
+/-- implied values of a table: class ↦ member index ↦ python token -/
+abbrev Implied := List (Nat × Nat × String)
+
+def Implied.get (I : Implied) (c k : Nat) : Option String := (I.find? fun e => e.1 == c && e.2.1 == k).map (·.2.2)
+
+mutual
+/-- the value of an instance as read through the public attributes, recursively -/
+def publicVal (I : Implied) : Val → Val
+  | .obj c fs => .obj c (publicFields I c 0 fs)
+  | .list vs => .list (publicList I vs)
+  | v => v
+def publicFields (I : Implied) (c : Nat) : Nat → List Val → List Val
+  | _, [] => []
+  | k, v :: vs => publicRead (I.get c k) (publicVal I v) :: publicFields I c (k + 1) vs
+def publicList (I : Implied) : List Val → List Val
+  | [] => []
+  | v :: vs => publicVal I v :: publicList I vs
+end
+
+/-- a present value — also a falsy one (0, false, PT0S, '') — is what the user reads -/
+theorem publicRead_present (implied : Option String) (v : Val) (h : v ≠ .none) : publicRead implied v = v := by
+  cases v <;> simp_all [publicRead]
+
+/-- an absent value reads as the implied value -/
+theorem publicRead_absent (implied : String) : publicRead (some implied) .none = .atom implied := rfl
+
+/-! ## the bundled XML schemas as independent reference
+
+`Generated/XsdTable.lean` is produced by a plain walk over `/repo/src/sdc11073/xsd/*.xsd` (`harness/xsdtable.py`): for
+every class of the Python table that stands for an XSD complex type / global element (by `NODETYPE`, or as the value
+class of a member whose element has an anonymous type) the flattened, ordered child elements and the attributes of
+that type. `xsdDeviations` relates the Python declarations to it. Names, type names and lexical forms are interned. -/
+
+structure XsdElem where
+  name : Nat
+  type : Nat          -- interned complex type of the element (0 = simple type / not a complex type of the schemas)
+  min : Nat
+  many : Bool         -- maxOccurs > 1
+deriving Repr, Inhabited
+
+structure XsdAttr where
+  name : Nat
+  required : Bool
+  dflt : Option Nat   -- interned lexical form of the XSD default
+deriving Repr, Inhabited
+
+structure XsdLink where
+  typeId : Nat                   -- the XSD type the class stands for (0 = none: the class is not compared)
+  elems : List XsdElem
+  attrs : List XsdAttr
+  anyElem : Bool
+  anyAttr : Bool
+  implied : List (Nat × Nat)     -- attribute name ↦ interned lexical form of the implied (or default) value of the class
+deriving Repr, Inhabited
+
+def findElem (n : Nat) : List XsdElem → Nat → Option (Nat × XsdElem)
+  | [], _ => none
+  | e :: es, i => if e.name == n then some (i, e) else findElem n es (i + 1)
+
+def findAttr (n : Nat) (l : List XsdAttr) : Option XsdAttr := l.find? (·.name == n)
+
+/-- deviation codes: 1 order, 2 element unknown to the XSD type, 3 value class ≠ XSD element type, 4 list vs single,
+    5 attribute unknown to the XSD type, 6 required attribute declared optional, 7 implied value ≠ XSD default -/
+def attrDevs (lk : XsdLink) (n : Nat) (opt withDefault : Bool) : List (Nat × Nat) :=
+  match findAttr n lk.attrs with
+  | none => if lk.anyAttr then [] else [(n, 5)]
+  | some a =>
+    (if a.required && opt then [(n, 6)] else []) ++
+    (match a.dflt with
+     | some d => if withDefault && (lk.implied.find? (·.1 == n)).map (·.2) != some d then [(n, 7)] else []
+     | none => [])
+
+/-- `(deviations, position of the member in the XSD sequence)` of an element member -/
+def elemDevs (L : List XsdLink) (lk : XsdLink) (last : Nat) (n : Nat) (isList single : Bool) (valueCls : Option Nat) :
+    List (Nat × Nat) × Nat :=
+  match findElem n lk.elems 0 with
+  | none => (if lk.anyElem then [] else [(n, 2)], last)
+  | some (i, xe) =>
+    ((if i < last then [(n, 1)] else []) ++
+     (if (isList && !xe.many) || (single && xe.many) then [(n, 4)] else []) ++
+     (match valueCls with
+      | some c => if xe.type != 0 && (match L[c]? with | some l => l.typeId | none => 0) != xe.type then [(n, 3)] else []
+      | none => []),
+     max last i)
+
+def propDevs (L : List XsdLink) (lk : XsdLink) : List PropE → Nat → List (Nat × Nat)
+  | [], _ => []
+  | p :: ps, last =>
+    match p.kind with
+    | .attr n _ opt _ => attrDevs lk n opt true ++ propDevs L lk ps last
+    | .attrList n _ opt => attrDevs lk n opt false ++ propDevs L lk ps last
+    | .text (some n) _ _ _ _ _ => let r := elemDevs L lk last n false true none; r.1 ++ propDevs L lk ps r.2
+    | .textList (some n) _ _ => let r := elemDevs L lk last n false false none; r.1 ++ propDevs L lk ps r.2
+    | .subTextList n _ => let r := elemDevs L lk last n true false none; r.1 ++ propDevs L lk ps r.2
+    | .sub (some n) c _ _ _ _ _ => let r := elemDevs L lk last n false true (some c); r.1 ++ propDevs L lk ps r.2
+    | .subList n c _ _ => let r := elemDevs L lk last n true false (some c); r.1 ++ propDevs L lk ps r.2
+    | .raw (some n) _ _ => let r := elemDevs L lk last n false false none; r.1 ++ propDevs L lk ps r.2
+    | _ => propDevs L lk ps last
+
+def clsDevs (L : List XsdLink) : List ClsE → List XsdLink → Nat → List (Nat × Nat × Nat)
+  | e :: es, lk :: lks, i =>
+    (if lk.typeId == 0 then [] else (propDevs L lk e.props 0).map fun d => (i, d.1, d.2)) ++ clsDevs L es lks (i + 1)
+  | _, _, _ => []
+
+/-- all deviations `(class, member name, code)` of the table `S` from the XSD reference `L` -/
+def xsdDeviations (S : Schema) (L : List XsdLink) : List (Nat × Nat × Nat) := clsDevs L S.classes L 0
+
+/-- the decidable predicate: the Python table matches the bundled schemas up to the listed exceptions -/
+def schemaMatchesXsd (S : Schema) (L : List XsdLink) (exceptions : List (Nat × Nat × Nat)) : Bool :=
+  xsdDeviations S L == exceptions
+
 end Sdc.XmlBinding
